@@ -629,22 +629,23 @@ class HelicityDecayP(HelicityDecayNP):
         n_b = len(self.outs[0].spins)
         n_c = len(self.outs[1].spins)
         H_part = self.get_H()
+        p = self.parity_term
         if self.part_H == 0:
-            H = tf.concat(
-                [
-                    H_part,
-                    self.parity_term * H_part[(n_b - 2) // 2 :: -1, ::-1],
-                ],
-                axis=0,
-            )
+            n_half = n_b // 2
+            if n_b % 2 == 1:
+                # the row of helicity 0 is related to itself
+                mid = H_part[n_half : n_half + 1]
+                mid = (mid + p * mid[:, ::-1]) / 2
+                H_part = tf.concat([H_part[:n_half], mid], axis=0)
+            H = tf.concat([H_part, p * H_part[:n_half][::-1, ::-1]], axis=0)
         else:
-            H = tf.concat(
-                [
-                    H_part,
-                    self.parity_term * H_part[::-1, (n_c - 2) // 2 :: -1],
-                ],
-                axis=1,
-            )
+            n_half = n_c // 2
+            if n_c % 2 == 1:
+                # the column of helicity 0 is related to itself
+                mid = H_part[:, n_half : n_half + 1]
+                mid = (mid + p * mid[::-1, :]) / 2
+                H_part = tf.concat([H_part[:, :n_half], mid], axis=1)
+            H = tf.concat([H_part, p * H_part[:, :n_half][::-1, ::-1]], axis=1)
         return H
 
 
